@@ -991,10 +991,13 @@ def make_data_dict_vcf(vcf_filename, popinfo_filename, subsample=None, filter=Tr
                         coverage_dict[pop] = ()
 
                 # Skip if DP=0 or DP=.
+                fields = sample.split(':')
                 try:
-                    if sample.split(':')[covindex] == '0,0' or sample.split(':')[dpindex] == '0':
+                    if covindex is not None and fields[covindex] == '0,0':
                         continue
-                except: 
+                    if dpindex is not None and fields[dpindex] == '0':
+                        continue
+                except IndexError:
                     pass
 
                 # Genotype in VCF format 0|1|1|0:...
